@@ -26,6 +26,7 @@ type Obj interface {
 	State() string        // printable packed state, for hashing / messages
 	Nomenclature() string // v4 only, "" otherwise
 	Same(Obj) bool        // pointer identity
+	Fn(i int) float64
 }
 
 var ScoreNames = map[string][]string{
@@ -66,6 +67,49 @@ func (o O20) SubScores() []float64 { return []float64{o.P.Impact(), o.P.Exploita
 func (o O30) SubScores() []float64 { return []float64{o.P.Impact(), o.P.Exploitability()} }
 func (o O31) SubScores() []float64 { return []float64{o.P.Impact(), o.P.Exploitability()} }
 func (o O40) SubScores() []float64 { return nil }
+
+// Fn calls ONE scoring method: 0 BaseScore, 1 TemporalScore, 2 EnvironmentalScore, 3 Impact,
+// 4 Exploitability (v4.0: 0 Score only).
+func (o O20) Fn(i int) float64 {
+	switch i {
+	case 0:
+		return o.P.BaseScore()
+	case 1:
+		return o.P.TemporalScore()
+	case 2:
+		return o.P.EnvironmentalScore()
+	case 3:
+		return o.P.Impact()
+	}
+	return o.P.Exploitability()
+}
+func (o O30) Fn(i int) float64 {
+	switch i {
+	case 0:
+		return o.P.BaseScore()
+	case 1:
+		return o.P.TemporalScore()
+	case 2:
+		return o.P.EnvironmentalScore()
+	case 3:
+		return o.P.Impact()
+	}
+	return o.P.Exploitability()
+}
+func (o O31) Fn(i int) float64 {
+	switch i {
+	case 0:
+		return o.P.BaseScore()
+	case 1:
+		return o.P.TemporalScore()
+	case 2:
+		return o.P.EnvironmentalScore()
+	case 3:
+		return o.P.Impact()
+	}
+	return o.P.Exploitability()
+}
+func (o O40) Fn(i int) float64     { return o.P.Score() }
 func (o O20) Clone() Obj           { c := *o.P; return O20{&c} }
 func (o O30) Clone() Obj           { c := *o.P; return O30{&c} }
 func (o O31) Clone() Obj           { c := *o.P; return O31{&c} }
@@ -105,6 +149,55 @@ type Pkg struct {
 	AsInvalidMetric func(error) (string, bool)
 	AsMissing       func(error) (string, bool)
 	AsDefinedN      func(error) (string, bool)
+}
+
+// Tamper overwrites the abbreviation carried by a typed error of any of the four packages (the
+// field is exported, so a caller may do this): an error value that the package hands out more
+// than once shows as a later error naming the wrong metric.
+func Tamper(err error) bool {
+	const mark = "~tampered~"
+	done := false
+	{
+		var e *gocvss20.ErrInvalidMetric
+		if errors.As(err, &e) && e != nil {
+			e.Abv, done = mark, true
+		}
+	}
+	{
+		var e *gocvss30.ErrInvalidMetric
+		if errors.As(err, &e) && e != nil {
+			e.Abv, done = mark, true
+		}
+		var m *gocvss30.ErrMissing
+		if errors.As(err, &m) && m != nil {
+			m.Abv, done = mark, true
+		}
+		var d *gocvss30.ErrDefinedN
+		if errors.As(err, &d) && d != nil {
+			d.Abv, done = mark, true
+		}
+	}
+	{
+		var e *gocvss31.ErrInvalidMetric
+		if errors.As(err, &e) && e != nil {
+			e.Abv, done = mark, true
+		}
+		var m *gocvss31.ErrMissing
+		if errors.As(err, &m) && m != nil {
+			m.Abv, done = mark, true
+		}
+		var d *gocvss31.ErrDefinedN
+		if errors.As(err, &d) && d != nil {
+			d.Abv, done = mark, true
+		}
+	}
+	{
+		var e *gocvss40.ErrInvalidMetric
+		if errors.As(err, &e) && e != nil {
+			e.Abv, done = mark, true
+		}
+	}
+	return done
 }
 
 var P20 = &Pkg{
